@@ -131,6 +131,9 @@ theorem opOK_apply {st st' : State} {op : Op} {r : Res} (hinv : IndexInv st.kv) 
   | settle m a b p signer =>
     obtain ⟨kv, hk, rfl⟩ := wk h
     exact ⟨opOK_of_order (fun hi => inv_settle hi hk) (touches_settle hk) (noNew_settle hk), rfl⟩
+  | fill m wb f fu ids total =>
+    obtain ⟨kv, hk, rfl⟩ := wk h
+    exact ⟨opOK_of_order (fun hi => inv_fillOrders hi hk) (touches_fillOrders hk) (noNew_fillOrders hk), rfl⟩
   | commit m a amt =>
     obtain ⟨kv, hk, rfl⟩ := wk h
     refine ⟨?_, rfl⟩
